@@ -29,6 +29,42 @@ let fmt_table (st : symtab) : string =
   "T" ^ String.concat " " (List.map func st.st_funcs) ^ "#" ^ String.concat " " (List.map pub st.st_publics)
   ^ "#" ^ String.concat " " (List.map win st.st_win_fd) ^ "#" ^ String.concat " " (List.map win st.st_win_fpo)
 
+
+(* ------------------------------------------------------------------ round 5: the model reads the TEXT.
+   The glue renders the case as the same Breakpad .sym text as harness/src/bin/c11.rs (names = letter + 4 digits +
+   decoration, `m` flags, lower-case hex), hands its lines (run-length encoded; an over-long `Z` line is one run of
+   padding and carries the decision "dropped") to C09's line recogniser + finish (Driver.table_of_text) and
+   symbolicates on the table seen through nm / tg (Text2.symtab_of_table): the executable counterpart of
+   c11_from_parse.  The table and every query answer must equal those computed from the records (build_symtab):
+   a difference is printed as P;;text-model and shows up as a mismatch with the implementation. *)
+let decor = [|
+  "";
+  " (anonymous namespace)::f<int, char const*>(void*) const";
+  " h\xc3\xa9llo w\xc3\xb6rld \xce\xbb\xe2\x86\x92\xf0\x9f\x98\x80";
+  "\tTab\there";
+  "  two  spaces  ";
+  "::operator()(unsigned long) [clone .cold]";
+  " m 10 20 PUBLIC FUNC INLINE_ORIGIN";
+  "`anonymous namespace'::<lambda_1>::operator()" |]
+let name_str (letter : char) (n : z) : string =
+  let i = int_of_z n in Printf.sprintf "%c%04d%s" letter i decor.(i mod 8)
+let mflag (n : z) : string = if int_of_z n mod 3 = 0 then "m " else ""
+let hex (v : z) : string = ZA.format "%x" (z_to_zt v)
+let zbyte = Array.init 256 (fun i -> z_of_int i)
+let zone = z_of_int 1
+let rle_of_string (s : string) : (z * z) list =
+  List.init (String.length s) (fun i -> (zbyte.(Char.code s.[i]), zone))
+(* names come back in normal form (runs merged): expand, then read the four digits after the letter *)
+let nm_of_rle (r : (z * z) list) : z =
+  let b = Buffer.create 16 in
+  List.iter (fun (c, k) -> for _ = 1 to max 1 (int_of_z k) do
+                             if Buffer.length b < 8 then Buffer.add_char b (Char.chr (int_of_z c)) done) r;
+  let s = Buffer.contents b in
+  if String.length s >= 5 then z_of_string (string_of_int (int_of_string (String.sub s 1 4))) else z_of_int (-1)
+let tg_of_win (w : win_info) : z = w.wi_prolog
+(* bytes of text the front-end may still read in this run (VERIF_C11_TEXT_BUDGET, default below) *)
+let text_budget = ref (try int_of_string (Sys.getenv "VERIF_C11_TEXT_BUDGET") with _ -> 2000000000)
+
 let () =
   try
     while true do
@@ -55,8 +91,13 @@ let () =
         assert (next () = "R");
         let files = ref [] and origins = ref [] and pubs = ref [] and funcs = ref []
         and wfd = ref [] and wfpo = ref [] in
+        (* the text, line by line (latest first): (dropped?, run-length encoded line) *)
+        let text = ref [(false, rle_of_string "MODULE Linux x86_64 ABCD1234 m1")] in
+        let emit s = text := (false, rle_of_string s) :: !text in
         (* current FUNC block: header + reversed sub-records *)
         let cur = ref None in
+        (* a sub-record with no FUNC block open: the parse fails (answer E) *)
+        let orphan = ref false in
         let close () =
           match !cur with
           | None -> ()
@@ -66,31 +107,42 @@ let () =
               cur := None in
         while !pos < n do
           match next () with
-          | "F" -> close (); let id = nz () in let nm = nz () in files := (id, nm) :: !files
-          | "O" -> let id = nz () in let nm = nz () in origins := (id, nm) :: !origins
+          | "F" -> close (); let id = nz () in let nm = nz () in files := (id, nm) :: !files;
+                   emit ("FILE " ^ zs id ^ " " ^ name_str 's' nm)
+          | "O" -> let id = nz () in let nm = nz () in origins := (id, nm) :: !origins;
+                   emit ("INLINE_ORIGIN " ^ zs id ^ " " ^ name_str 'o' nm)
           | "P" -> close (); let a = nz () in let ps = nz () in let nm = nz () in
-                   pubs := { p_addr = a; p_name = nm; p_psize = ps } :: !pubs
+                   pubs := { p_addr = a; p_name = nm; p_psize = ps } :: !pubs;
+                   emit ("PUBLIC " ^ mflag nm ^ hex a ^ " " ^ hex ps ^ " " ^ name_str 'p' nm)
           | "U" -> close (); let a = nz () in let s = nz () in let ps = nz () in let nm = nz () in
-                   cur := Some ((a, s, ps, nm), [], [])
+                   cur := Some ((a, s, ps, nm), [], []);
+                   emit ("FUNC " ^ mflag nm ^ hex a ^ " " ^ hex s ^ " " ^ hex ps ^ " " ^ name_str 'f' nm)
           | "L" -> let a = nz () in let s = nz () in let ln = nz () in let fl = nz () in
+                   emit (hex a ^ " " ^ hex s ^ " " ^ zs ln ^ " " ^ zs fl);
                    (match !cur with
                     | Some (h, ls, is) -> cur := Some (h, { l_addr = a; l_size = s; l_file = fl; l_line = ln } :: ls, is)
-                    | None -> raise Exit)
+                    | None -> orphan := true)
           | "I" -> let d = nz () in let cl = nz () in let cf = nz () in let og = nz () in
                    let k = int_of_string (next ()) in
                    let rs = List.init k (fun _ -> let a = nz () in let s = nz () in (a, s)) in
+                   emit ("INLINE " ^ zs d ^ " " ^ zs cl ^ " " ^ zs cf ^ " " ^ zs og
+                         ^ String.concat "" (List.map (fun (a, s) -> " " ^ hex a ^ " " ^ hex s) rs));
                    (match !cur with
                     | Some (h, ls, is) ->
                         let is' = List.fold_left (fun acc (a, s) ->
                           { i_depth = d; i_addr = a; i_size = s; i_cfile = cf; i_cline = cl; i_origin = og } :: acc) is rs in
                         cur := Some (h, ls, is')
-                    | None -> raise Exit)
-          | "Z" -> let _ = nz () in let _ = nz () in let _ = nz () in let _ = nz () in
+                    | None -> orphan := true)
+          | "Z" -> let a = nz () in let s = nz () in let ps = nz () in let nm = nz () in
                    let len = int_of_string (next ()) in
-                   if len < 163840 then failwith "Z must be over-long"
+                   if len < 163840 then failwith "Z must be over-long";
+                   text := (true, rle_of_string ("FUNC " ^ hex a ^ " " ^ hex s ^ " " ^ hex ps ^ " " ^ name_str 'f' nm)
+                                  @ [(zbyte.(Char.code 'x'), z_of_int len)]) :: !text
           | "W" -> close (); let ty = int_of_string (next ()) in
                    let a = nz () in let s = nz () in let ps = nz () in let tg = nz () in
                    let w = { w_addr = a; w_size = s; w_psize = ps; w_tag = tg } in
+                   emit ("STACK WIN " ^ Printf.sprintf "%x" ty ^ " " ^ hex a ^ " " ^ hex s ^ " " ^ hex tg ^ " 0 " ^ hex ps
+                         ^ " 0 0 0 " ^ (if ty = 4 then "1 $eip 4 + ^ =" else "0 0"));
                    if ty = 4 then wfd := w :: !wfd else if ty = 0 then wfpo := w :: !wfpo else ()
           | t -> failwith ("bad item " ^ t)
         done;
@@ -101,16 +153,33 @@ let () =
           | Panic t -> "P;;" ^ zs t
           | OutOfFuel -> "P;;fuel"
           | _ -> "P;;fail" in
+        let render st l =
+          String.concat ";" (fmt_table st :: List.map (fun ((a, b), g) ->
+            "D" ^ fmt_out a ^ "/S" ^ (match b with None -> "-" | Some (i, o) -> zs i ^ ":" ^ fmt_out o)
+            ^ "/G" ^ opt zs g) l) in
+        let from st = match run_case_st st mbase msize extra qs with Ret l -> render st l | r -> fail r in
         let ans =
           match table_of rf with
-          | Ret st ->
-              (match run_case rf mbase msize extra qs with
-               | Ret l ->
-                   String.concat ";" (fmt_table st :: List.map (fun ((a, b), g) ->
-                     "D" ^ fmt_out a ^ "/S" ^ (match b with None -> "-" | Some (i, o) -> zs i ^ ":" ^ fmt_out o)
-                     ^ "/G" ^ opt zs g) l)
-               | r -> fail r)
+          | Ret st -> from st
           | r -> fail r in
+        (* the same from the text (skipped for very long texts: C09's recogniser works byte by byte on Coq integers) *)
+        let ans =
+          if !orphan then begin
+            (* the record model has no answer here; the text model must reject the text as the parser does *)
+            match table_of_text nm_of_rle tg_of_win (List.rev !text) with
+            | Ret None -> "E"
+            | Ret (Some _) -> "P;;text-model accepts sub-records without an open FUNC block"
+            | r -> "P;;text-model " ^ fail r
+          end
+          else if !text_budget <= 0 then ans
+          else begin
+            let ds = List.rev !text in
+            text_budget := !text_budget - List.fold_left (fun n (_, l) -> n + List.length l) 0 ds;
+            match table_of_text nm_of_rle tg_of_win ds with
+            | Ret (Some st) -> let a2 = from st in if a2 = ans then ans else "P;;text-model " ^ a2
+            | Ret None -> "P;;text-model rejects the text"
+            | r -> "P;;text-model " ^ fail r
+          end in
         print_endline ans
         with Exit -> print_endline "E")
       end
